@@ -20,6 +20,8 @@ struct hreq {
     int ncb;
     uint64_t last_value;
     bool last_was_uref;
+    int action;                 /* what the callback does: 0 nothing, 1 register another
+                                 * request again, 2 send a buffer */
 };
 static struct hreq hreqs[NREQ];
 static bool probe_answers;      /* probe providers answer immediately */
@@ -49,6 +51,31 @@ static int hreq_provide(struct urequest *ur, va_list args)
             uref_attr_get_unsigned(u, &r->last_value, UDICT_TYPE_UNSIGNED, "x.ans");
         r->last_was_uref = true;
         uref_free(u);           /* the answer belongs to the requester */
+    }
+    /* requesters act on answers: they ask again for something else, or start
+     * sending (upipe_helper_flow_format / ubuf_mgr do the former) */
+    if (r->action && req_actions_left > 0 && usable(0) && !sim_violation_class()) {
+        req_actions_left--;
+        if (r->action == 1) {
+            struct hreq *o = &hreqs[(k + 1) % NREQ];
+            if (o->registered && o->type == UREQUEST_SINK_LATENCY) {
+                SIM_PROBE("req_reregistered_from_callback");
+                o->registered = false;
+                upipe_control(pipes[0].upipe, UPIPE_UNREGISTER_REQUEST, &o->ureq);
+                o->ureq.registered = false;
+                o->registered = true;
+                upipe_register_request(pipes[0].upipe, &o->ureq);
+            }
+        } else if (r->action == 2) {
+            struct sim_op in = { 0, OP_INPUT, { 0, 4, 0, 0, 0, 0 } };
+            struct mu u;
+            struct uref *uref = build_uref(&in, &u);
+            if (uref != NULL) {
+                SIM_PROBE("req_buffer_sent_from_callback");
+                m_input(0, u);
+                upipe_input(pipes[0].upipe, uref, NULL);
+            }
+        }
     }
     return UBASE_ERR_NONE;
 }
@@ -97,6 +124,20 @@ static void answer(struct urequest *proxy, int type, uint64_t value)
         uref_attr_set_unsigned(u, value, UDICT_TYPE_UNSIGNED, "x.ans");
         urequest_provide_flow_format(proxy, u);
     }
+}
+
+static void req_sink_sync_answer(int sink, struct urequest *proxy)
+{
+    int k = req_root(proxy);
+    if (k < 0)
+        return;
+    SIM_PROBE("req_answered_inside_register");
+    int before = hreqs[k].ncb;
+    uint64_t value = 9000 + (uint64_t)sink;
+    answer(proxy, hreqs[k].type, value);
+    if (hreqs[k].registered && !sim_violation_class() && hreqs[k].ncb < before + 1)
+        sim_violation(V_REQ_ANSWER, "answer given by sink %d from inside register_request did not reach request %d",
+                      sink, k);
 }
 
 void req_probe_provide(struct tprobe *p, struct upipe *upipe, struct urequest *urequest)
@@ -170,6 +211,7 @@ void req_do_op(const struct sim_op *op)
         r->inited = true;
         r->registered = true;
         r->ncb = 0;
+        r->action = (int)((uint64_t)op->a[3] % 3);
         probe_answers = ((uint64_t)op->a[2] & 1) != 0;
         int ret = upipe_register_request(pipes[0].upipe, &r->ureq);
         SIM_PROBE("req_registered");
@@ -258,14 +300,15 @@ void gen_req(struct sim_rng *r, struct sim_plan *p)
     p->cfg[CFG_UBUF_POOL] = sim_rng_below(r, 5);
     p->cfg[CFG_TEARDOWN] = sim_rng_below(r, 4);
     p->cfg[CFG_NSUBS] = sim_rng_below(r, 3);
+    p->cfg[CFG_REACT] = sim_rng_chance(r, 1, 4) ? 1 + sim_rng_below(r, 2) : 0;
     int n = 5 + (int)sim_rng_below(r, 26);
     for (int i = 0; i < n; i++) {
         uint32_t c = sim_rng_below(r, 100);
         int pp = (int)sim_rng_below(r, MAXP);
-        if (c < 26) sim_plan_add(p, 0, OP_REQ_REGISTER, sim_rng_below(r, NREQ), sim_rng_below(r, 2), sim_rng_below(r, 2), 0, 0, 0);
+        if (c < 26) sim_plan_add(p, 0, OP_REQ_REGISTER, sim_rng_below(r, NREQ), sim_rng_below(r, 2), sim_rng_below(r, 2), sim_rng_chance(r, 1, 2) ? sim_rng_below(r, 3) : 0, 0, 0);
         else if (c < 40) sim_plan_add(p, 0, OP_REQ_UNREGISTER, sim_rng_below(r, NREQ), 0, 0, 0, 0, 0);
         else if (c < 58) sim_plan_add(p, 0, OP_REQ_PROVIDE, sim_rng_below(r, MAXS), sim_rng_below(r, 8), sim_rng_below(r, 1000), sim_rng_below(r, 2), 0, 0);
-        else if (c < 84) sim_plan_add(p, 0, OP_SET_OUTPUT, pp, sim_rng_below(r, 4), 0, 0, 0, 0);
+        else if (c < 84) sim_plan_add(p, 0, OP_SET_OUTPUT, pp, sim_rng_below(r, 4), 0, sim_rng_below(r, 4), 0, 0);
         else if (c < 89) sim_plan_add(p, 0, OP_RELEASE, pp, 0, 0, 0, 0, 0);
         else if (c < 94) sim_plan_add(p, 0, OP_SET_FLOW_DEF, sim_rng_below(r, 2), sim_rng_below(r, 3), 0, 0, 0, 0);
         else sim_plan_add(p, 0, OP_INPUT, sim_rng_below(r, 3), sim_rng_below(r, 10), 0, 0, 0, 0);
